@@ -34,8 +34,8 @@ TIE_FOR = {
     'C07': ['TieClasses', 'TieReducers', 'TieMath', 'TieFormulas', 'TieOrch', 'TieRules', 'TieRoute'],
     'C08': ['TieReducers', 'TieRules', 'TieNorm', 'TieStep'],
     'C09': ['TieCache', 'TieBound', 'TieCacheBody', 'TieStep'], 'C10': ['TieWrites'], 'C11': ['TieReducers', 'TieBound', 'TieRules', 'TieStep'],
-    'C12': ['TieClasses', 'TieObj'], 'C13': ['TiePublic', 'TieObj'], 'C14': ['TieSets', 'TieRoute'], 'C15': ['TieOperators'],
-    'C16': ['TieClasses'], 'C17': ['TieClasses', 'TieMath'], 'C18': ['TieSets'],
+    'C12': ['TieClasses', 'TieObj'], 'C13': ['TiePublic', 'TieObj'], 'C14': ['TieSets', 'TieRoute'], 'C15': ['TieOperators', 'TieCtor'],
+    'C16': ['TieClasses', 'TieCtor'], 'C17': ['TieClasses', 'TieMath', 'TieCtor'], 'C18': ['TieSets'],
 }
 
 
